@@ -8,12 +8,16 @@ CLAIMED = {
             "3 (C01)"),
     "C07": ("hist+buggify", "buggify-style seeded skipping of fast paths (hooks S1-S8) on a twin world, placed points along generated slabs/faults/depth surfaces, twin-equality oracle; minimised replay",
             "3 (C07), 2.6"),
+    "C12": ("ctor", "world construction over the simulated file layer: structural mutators on corpus/generated documents, seeded fault plans (torn/corrupted/short/interrupted/failing reads, file changing between the two opens, open failure), allocation faults, raw byte strings, formatting variants; oracle = outcome in {built, std::exception with message} under ASan/UBSan, published-schema/length/version/JSON rules reject, intact file still builds afterwards; minimised replay",
+            "3 (C12)"),
+    "C14": ("sched", "deterministic scheduler (real pthreads parked/released one at a time through raw futexes in an uninstrumented TU, so ThreadSanitizer still sees the races) deciding every switch of 2-32 client threads and of gwb-grid's worker threads at spawn/join/exit/op boundaries and the yield points inside World::properties; oracles: sequential reference, TSan report count, -j N bytes == -j 1 bytes, join-before-write; seeded strategies (random, burst, round robin, PCT, starve-one); minimised replay",
+            "3 (C14), 2.3"),
     "C15": ("hist", "seeded histories on worlds with hidden RNG state: twins interleaved differently with other worlds, mt19937 engine-state model checked after every operation, validity invariants; minimised replay",
             "3 (C15)"),
     "C16": ("hist+fs", "seeded histories through native/C/C++ handles created in twins; responses, failures and the simulated file layer's effect trace of create_world compared; open-failure faults; minimised replay",
             "3 (C16)"),
 }
-PLANNED = {k: "check under construction in this session (deterministic-simulation engine designed in DESIGN.md section 3, not yet registered)" for k in ("C12", "C14", "C17", "C18")}
+PLANNED = {k: "check under construction in this session (deterministic-simulation engine designed in DESIGN.md section 3, not yet registered)" for k in ("C17", "C18")}
 NA = {
     "C02": "pure function of (feature list, point): no schedule, fault, I/O delivery or history in the statement; deciding it needs input generation against a reference painter, which is a different technique",
     "C03": "closed form in the file's constants, pure function of (file, point); its 'however the request is batched' clause is exercised by C01's block oracle but the property as a whole has nothing to simulate",
@@ -29,12 +33,16 @@ NA = {
     "C20": "physical envelope of a pure function of model parameters",
 }
 LEVEL_TEXT = {
+    "C12": "Exploration under ASan/UBSan: the constructor is a reader of an external stream that it opens twice, whose errors it does not check and whose every allocation can fail; runs sample damaged documents and the ways their bytes can be delivered, and demand 'built or std::exception', rejection of what the published schema / length rules / version / JSON grammar exclude, bit-identical worlds for formatting variants, and an undamaged process afterwards. Sampling of an unbounded input space, not proof.",
+    "C14": "Exploration of schedules: the scheduler owns every interleaving decision, TSan (happens-before based, blind to the scheduler's futex hand-offs) reports races without the corrupting interleaving having to be hit, and the value/byte oracles catch what is not a data race (missing join, dropped or overlapping slices, order-dependent state). Thousands of distinct decision traces per run, not all interleavings.",
     "C07": "Exploration: per run a generated slab/fault/depth-surface world is built twice, once as shipped and once with a seeded subset of the acceleration shortcuts switched off through guarded hooks; hundreds of points placed by the planar construction (deep end, top end, interior) plus uniform ones are asked of both. Any answer that differs is a point a shortcut discarded. Sampling, not proof; model-level min/max pre-tests are not buggified.",
     "C15": "Exploration: the hidden engine state makes answers history-dependent by design; runs search over seeds, query sequences and interleavings with other worlds, and check twin equality bit for bit, the engine state against an independent mt19937 advanced by the documented number of draws after every operation, seed sensitivity, and rotation/size/bounds validity.",
     "C16": "Exploration under ASan/UBSan: every function of the C API and the C++ wrapper is driven next to a native twin created with the same arguments; bit-identical responses, identical failures, and identical file effects (which paths are opened for writing with which bytes) make 'every argument reaches the world unchanged' observable.",
     "C01": "Exploration: thousands of seeded histories per run, each response compared bit for bit with a stateless reference; the bug class (state leaking from one request, world or entry point into another) only shows for particular op orders, which the seed searches and the minimiser reduces to the 2-3 ops that matter. Not a proof: histories are sampled.",
 }
 NOTE = {
+    "C12": "Trusted: rapidjson's validator run by the harness against the schema the library under test publishes (captured from the simulated disk); list-length rules transcribed from the parameter documentation and judged only when every key involved is present; malloc is never failed; EIO deliveries carry no expectation; one known finding (Delaunator on extreme depth-surface coordinates) is listed in known_findings.json.",
+    "C14": "Trusted: clang's TSan runtime; the stateless reference is computed sequentially after the threads have finished; std::thread inside gwb-grid is replaced by a class of the same surface backed by the scheduler; worlds with random models are excluded as the property says.",
     "C07": "Trusted: the un-culled evaluation (shortcuts off) is the reference; S8 pairs are compared within 1e-9 relative with exact tags; a pair where only one side throws is counted as inconclusive (reported in evidence), not as a violation.",
     "C15": "Trusted: libstdc++'s mt19937/uniform_real_distribution (2 engine calls per double); draw counts are predicted only for box-shaped features where membership is trivial, twins cover slabs/faults and corpus files; generated sizes and bounds are dyadic so the JSON parser stores exactly what was written.",
     "C16": "Trusted: the native World is the reference; the C handle is known to be a World* (used only to read the engine state); output files are captured by the simulated file layer, no real directory is touched.",
